@@ -38,6 +38,7 @@ import RtoscModel.Proofs.PrettyRunConst
 import RtoscModel.Proofs.PrettyRunInt
 import RtoscModel.Proofs.PrettyRunsExtItems
 import RtoscModel.Proofs.PrettyRunsExtConv
+import RtoscModel.Proofs.PrettyRunsExtMsg
 import RtoscModel.ArgVal.Expand
 import RtoscModel.Generated.PrettyConst
 namespace Rtosc.Pretty
@@ -809,6 +810,20 @@ theorem print_scan_roundtrip_runs_partial (opt : POpt) (hopt : OptOK opt) (hc : 
   · rw [flatList_itemsAll hs none]; exact h3
   · rw [flatList_itemsAll hs none]; exact h4
 
+
+/-- **message_roundtrip_runs_partial** (tier 3, "the same holds for whole messages"): address plus an
+    argument list with compressed runs in context, as in `print_scan_roundtrip_runs_partial`. -/
+theorem message_roundtrip_runs_partial (opt : POpt) (hopt : OptOK opt) (hc : opt.compress = true)
+    (addr : Bytes) (adrsize : Nat) (ha : AddrOK addr) (hal : addr.length < adrsize)
+    (segs : List RSeg) (hseg : PrinterSegments opt segs) :
+    MsgRoundTrips opt addr adrsize ((cellsAll segs).map Item.val) := by
+  have hs := hseg.segmented hopt
+  obtain ⟨st, ret, h1, h2, h3, h4⟩ := runs_message_roundtrip_cells opt hc addr adrsize ha hal segs hs
+  refine ⟨st, ret, itemsAll none segs, (cellsAll segs).map Val.sc, ?_, h2, ?_, ?_, expandList_itemsAll hs none,
+    expandList_valsX _ hs.scalars⟩
+  · rw [flatList_valsX]; exact h1
+  · rw [flatList_itemsAll hs none]; exact h3
+  · rw [flatList_itemsAll hs none]; exact h4
 
 /-! ### The constants and tables extracted from the source (Generated/PrettyConst.lean) -/
 
